@@ -192,6 +192,10 @@ def wrap_ufunc_productspace(name, n_in, n_out, doc):
                               for x in self.elem]
                     return self.elem.space.element(result)
                 else:
+                    if (isinstance(out, tuple) and len(out) == 1 and
+                            out[0] in self.elem.space):
+                        # NumPy-style tuple form ``out=(o,)``
+                        out = out[0]
                     for x, out_x in zip(self.elem, out):
                         getattr(x.ufuncs, name)(out=out_x, **kwargs)
                     return out
